@@ -33,7 +33,7 @@ theorem InvD.pres_d6 {cfg : Cfg} {s s' : State} {l : Label} (hB : InvB s) (hC : 
   all_goals (repeat' (split at h))
   all_goals (first | (cases h; done) | skip)
   all_goals (cases h)
-  all_goals (first | (exfalso; simp_all [Label.grpD]; done) | skip)
+  all_goals (first | (exfalso; simp only [Label.grpD, *] at hg; done) | (exfalso; simp only [Label.grpD, *] at hg; omega) | skip)
   all_goals (try simp only [allRootsEnded_iff, anyRootEnded_iff, othersEnded_iff, hungLive_false_iff,
     noLiveWorkerOf_iff, noLiveSub_iff] at *)
   all_goals (refine ⟨?_, ?_, ?_, ?_, ?_, ?_, ?_, ?_, ?_, ?_, ?_, ?_, ?_, ?_, ?_⟩)
